@@ -30,6 +30,9 @@ CoversOffsets(s) ==
   /\ {2 * w + b : w \in 0..(Planned(s, "word") - 1), b \in {0, 1}} = 0..(2 * (s.mlen \div 2) - 1)
   /\ \A kind \in {"trunc", "flip", "ff", "inc", "dec"} : Planned(s, kind) = s.mlen
   /\ \A v \in 1..NumValues : WordValue(v, s.len) \in 0..65535
+  \* the count plan: every single count and every pair, each with every value
+  /\ {<<c, v>> : c \in 1..(s.ncnt + s.ncpair), v \in 0..(NumCountValues - 1)}
+       = {<<(k \div NumCountValues) + 1, k % NumCountValues>> : k \in 0..(Planned(s, "count") - 1)}
   \* the DICT plan gives every 5-byte operand every value class
   /\ {<<d, v>> : d \in 1..s.ndict, v \in 0..(NumDictValues - 1)}
        = {<<(k \div NumDictValues) + 1, k % NumDictValues>> : k \in 0..(Planned(s, "dict") - 1)}
